@@ -1759,7 +1759,7 @@ def run(ctx):
         "which TypeInferenceException is raised (occurs / clash / not a function / under-determined / reserved) is read off the message "
         "text for the histogram only; verdicts and the comparison with the model use the exception class, and whether an error is "
         "justified is decided by the reference unifier (fully determined typing exists: error is a violation)",
-        "termination of unify is not proved (fuel); only the final substitution loop is proved to terminate",
+        "termination: proved (unify_fuel_suffices, final_loop_terminates, type_infer_total); principality of the traversal: not proved",
         "the model takes the signature as a parameter (Ctx.sig): that type_infer reads the signature of the theory current at the time "
         "of the call (no state kept between calls or theories) is checked by the history stream, not proved"]
     sig = load_sig(ctx)
@@ -1827,15 +1827,23 @@ MANIFEST = {
             "declared type, gives the occurrences of a variable whose type is missing one type per name, constants at instances of their "
             "signature type or of the type ctxt.defs gives for the constant being defined, no internal type variable left; a given type using a "
             "reserved name ?'_t... is rejected with type_infer's own error), unify_sound "
-            "(uf solves every equation unified so far), erasure_recovery_partial (variable types dropped, variables declared: the original term "
-            "comes back), union_preserves_reach + infer_preserves_reach + final_loop_terminates (the final "
+            "(uf solves every equation unified so far), unify_fuel_suffices (unify never runs out of fuel >= (n+1)(S+1)+S+2: termination of "
+            "the recursive unify, by a chain/measure argument on the union-find + reach-set state), unify_complete + unify_most_general "
+            "(if some substitution solves uf and unifies A and B, unify succeeds and keeps it: the solved form has exactly the unifiers), "
+            "infer_state_good (every state the traversal reaches satisfies the invariants these need), type_infer_total (some fuel is "
+            "always enough: the whole of type_infer terminates), erasure_recovery (variable types dropped, variables declared, constant and "
+            "binder types kept: exactly the original term comes back), union_preserves_reach + infer_preserves_reach + final_loop_terminates (the final "
             "substitution loop terminates on every state the traversal can reach). Model tied to syntax/infertype.py by differential runs on "
             "generated skeletons; the real type_infer is judged on every generated skeleton by an oracle that needs no model "
             "(checked_get_type, shape, annotations, declared types, instances, no _tN, exact recovery of erased well-typed terms, and an "
             "independent textbook unifier deciding typable / under-determined / untypable).",
     "note": "Trusted: Lean kernel, propext/Classical.choice/Quot.sound, the generators and reference unifier in harness/props/c08.py, "
-            "kernel Term.checked_get_type. Partial: principality (recovers the original or reports under-determined) is checked by the "
-            "reference unifier on generated inputs, not proved; termination of unify is not proved (fuel) - only the final loop; "
+            "kernel Term.checked_get_type. NOT proved: principality of the whole traversal infer (that the returned term is the most general "
+            "completion of the skeleton / that an erasure is either recovered or under-determined): proved for the unification core only "
+            "(unify_complete, unify_most_general) and for the erasure level 'variable types only' (erasure_recovery); for the other levels "
+            "it is checked by the reference unifier on generated inputs. type_infer_total gives existence of enough fuel, not a closed "
+            "formula for the whole traversal (unify_fuel_suffices gives the formula per unify call); the harness runs the model with "
+            "fuel 100000 and reports a model fuel exhaustion as a broken correspondence. "
             "infer_printed_type is not modelled. Scope of 'gives all occurrences of a variable one type': the occurrences WITHOUT annotation "
             "(theorem: Respects.varFree / varDecl); an annotated occurrence (x::T) keeps T and, kernel variables being identified by name "
             "AND type, is a different variable from an x of another type - parse_term(\"(x::nat) = 0 & x\") returns x at nat and at bool; "
